@@ -371,7 +371,7 @@ def kani_playback(scratch_repo, harness, timeout):
                                                     '--output-format', 'terse', '--harness', harness, '--exact']
     rc, out, err, wall = run(['timeout', '-k', '10', str(timeout)] + cmd, cwd=scratch_repo)
     tests = []
-    for m in re.finditer(r'/// Check for `(\w+)`: "(.*?)"\s*\n\s*#\[test\]\s*\nfn (\w+)\(\) \{\s*let concrete_vals: Vec<Vec<u8>> = vec!\[(.*?)\n\s*\];', out, flags=re.S):
+    for m in re.finditer(r'/// Check for `(\w+)`: "(.*?)"\s*\n(?:\s*///[^\n]*\n|\s*\n)*\s*#\[test\]\s*\nfn (\w+)\(\) \{\s*let concrete_vals: Vec<Vec<u8>> = vec!\[(.*?)\n\s*\];', out, flags=re.S):
         kind, msg, name, body = m.groups()
         vals = []
         for vm in re.finditer(r'vec!\[([0-9, ]*)\]', body):
@@ -388,16 +388,18 @@ SHIM = open(os.path.join(ROOT, 'contracts', 'replay', 'kani_shim.rs')).read() if
 
 
 def nativize(module_text, harness, values):
-    """Turn a `#[cfg(kani)] mod verif_kani { … }` module into a native test module: kani attributes are
-    erased (so every stub is OFF and the real callees run), `kani::` resolves to the shim, and one #[test]
-    feeds the verifier's concrete values to the harness."""
+    """Turn a `#[cfg(kani)] [pub(crate)] mod verif_kani { … }` module into a native test module: kani attributes
+    are erased (so every stub is OFF and the real callees run), `kani::` resolves to the shim, and (if harness
+    is given) one #[test] feeds the verifier's concrete values to the harness."""
     t = module_text
-    t = re.sub(r'#\[cfg\(kani\)\]\s*mod\s+verif_kani', '#[cfg(test)]\n#[allow(warnings)]\nmod verif_replay', t, count=1)
+    t = re.sub(r'#\[cfg\(kani\)\]', '#[cfg(test)]\n#[allow(warnings)]', t, count=1)
     t = re.sub(r'^\s*#\[kani::[^\n]*\]\s*\n', '', t, flags=re.M)
     t = re.sub(r'#\[cfg_attr\(kani,[^\n]*\)\]\s*\n', '', t)
-    vals = ', '.join('vec![' + ', '.join(str(b) for b in v) + ']' for v in values)
     idx = t.rfind('}')
-    test = f'''
+    test = ''
+    if harness:
+        vals = ', '.join('vec![' + ', '.join(str(b) for b in v) + ']' for v in values)
+        test = f'''
     #[test]
     fn verif_replay_entry() {{
         kani::load(vec![{vals}]);
@@ -412,20 +414,23 @@ def nativize(module_text, harness, values):
         }}
     }}
 '''
-    t = t[:idx] + '\n    mod kani {\n' + SHIM + '\n    }\n' + test + t[idx:]
+    t = t[:idx] + '\n    pub(crate) mod kani {\n' + SHIM + '\n    }\n' + test + t[idx:]
     return t
 
 
 def native_replay(rel, harness, values, bin_crate, timeout=900):
-    """Build a fresh scratch copy with the nativized module appended to `rel`, run the test in debug and release."""
-    module_text = open(os.path.join(ROOT, 'contracts', 'kani', rel)).read()
+    """Build a fresh scratch copy with the nativized module appended to `rel` (and the nativized helper modules
+    it depends on), run the test in debug and release."""
     results = {}
     with Scratch('replay') as sc:
-        dst = os.path.join(sc.repo, rel)
-        if not os.path.exists(dst):
-            return dict(error=f'{rel} missing')
-        with open(dst, 'a') as f:
-            f.write('\n\n' + nativize(module_text, harness, values))
+        files = [rel] + list(registry.FILE_DEPS.get(rel, [])) + (['src/main.rs'] if bin_crate else ['src/lib.rs'])
+        for f in dict.fromkeys(files):
+            dst = os.path.join(sc.repo, f)
+            src = os.path.join(ROOT, 'contracts', 'kani', f)
+            if not os.path.exists(dst) or not os.path.exists(src):
+                return dict(error=f'{f} missing')
+            with open(dst, 'a') as fh:
+                fh.write('\n\n' + nativize(open(src).read(), harness if f == rel else None, values))
         for profile in ('debug', 'release'):
             cmd = ['cargo', 'test', '--offline']
             if profile == 'release':
@@ -440,8 +445,6 @@ def native_replay(rel, harness, values, bin_crate, timeout=900):
                 results[profile] = dict(outcome='BUILD-OR-RUN-ERROR', detail=(err[-1200:] + out[-400:]))
     return results
 
-
-# ---------------------------------------------------------------------------
 
 # ---------------------------------------------------------------------------
 # native bounded stand-ins (labelled bounded, never counted as proved): #[cfg(test)] modules from
@@ -653,6 +656,7 @@ def main():
         # group refuted by obligation
         grouped = {}
         replays_done = {}
+        playbacks_left = [2]
         refuted.sort(key=lambda x: {'kani': 0, 'native': 1}.get(x['engine'], 2))
         for x in refuted:
             grouped.setdefault(x['obligation'], []).append(x)
@@ -676,9 +680,16 @@ def main():
                 suffix = ''
                 rep['native_test'] = dict(file=x0['file'], test=x0.get('native_test'), bin=x0.get('bin', False), name=x0['harness'])
                 rep['failing_input_and_message'] = x0.get('detail', '')
-            if x0['engine'] == 'kani' and not a.no_replay:
+            if x0['engine'] == 'kani' and not a.no_replay and x0.get('replay') != 'shim':
+                rep['note'] = 'harness postcondition mentions stub-recorded ghost state: no generic native replay; see the native stand-in violations of this run for a concrete failing input, if any'
+            if x0['engine'] == 'kani' and not a.no_replay and x0.get('replay') == 'shim' and playbacks_left[0] <= 0:
+                rep['note'] = 'concrete playback skipped (budget of 2 per run); see the other replay files of this run'
+            if x0['engine'] == 'kani' and not a.no_replay and x0.get('replay') == 'shim' and playbacks_left[0] > 0:
+                playbacks_left[0] -= 1
                 tests, tail = kani_playback(sc.repo, x0['harness_id'], 1800)
                 fails = [t for t in tests if t['kind'] != 'cover']
+                want = [t for t in fails if any(t['check'].strip('"') in fc for fc in rep['failed_checks'])]
+                fails = want + [t for t in fails if t not in want]
                 rep['counterexamples'] = fails[:3]
                 rep['kani_playback_tail'] = tail if not fails else ''
                 if fails and x0.get('replay') == 'shim':
